@@ -254,6 +254,18 @@ def rel_work(rel, tier, rng, viols, keys, counters):
                 if got != exp:
                     add(viols, 'C09|iban:%s|differs-from-generic-and-national' % cc, 'iban.validate(%r) = %r; generic rules %r, %s %r' % (x, got, g, nat, nt),
                         {'rel': rel, 'wrapper': 'iban', 'x': x})
+                # the option spelled the other usual ways (positional, 1 / 0): asked to check the country it checks
+                # it, asked not to it does not
+                for on, how in ((True, 'keyword True'), (1, 'keyword 1'), ('pos', 'positional True')):
+                    o_on = C.short(C.outcome(iban.validate, x, True) if on == 'pos' else C.outcome(iban.validate, x, check_country=on))
+                    evals += 1
+                    if o_on != exp:
+                        add(viols, 'C09|iban:%s|check_country-on-differs' % cc, 'iban.validate(%r, check_country %s) = %r; generic rules %r, %s %r' % (x, how, o_on, g, nat, nt),
+                            {'rel': rel, 'wrapper': 'iban', 'x': x})
+                o_off = C.short(C.outcome(iban.validate, x, check_country=0))
+                if o_off != g:
+                    add(viols, 'C09|iban:%s|check_country-off-differs' % cc, 'iban.validate(%r, check_country=0) = %r; generic rules %r' % (x, o_off, g),
+                        {'rel': rel, 'wrapper': 'iban', 'x': x})
                 if nt[0] == 'ok' and g[0] != 'ok':
                     add(viols, 'C09|%s|national-accepts-generic-rejects' % nat, '%s.validate(%r) = %r but the generic IBAN rules reject it' % (nat, x, nt), {'rel': rel, 'wrapper': nat, 'x': x})
     elif rel in ('ch.vat', 'se.vat', 'no.mva', 'fi.ytunnus', 'mc.tva', 'ro.cf', 'sk.rc'):
